@@ -42,6 +42,7 @@ enum {
   OP_OVER,           /* a = live index: write one foreign byte just past the requested size, then free the block */
   OP_LINK,           /* a = index into the list of released blocks: overwrite its free-list link with a forged value */
   OP_HFILL,          /* a = heap slot, b = size: nine blocks (a full page of 8 plus one: the full page moves to the heap's full queue) */
+  OP_THREAD_ALIGNED, /* a = size, b = alignment: helper thread allocates 2 aligned blocks, hands them to the model, exits (abandons) */
   OP_LAST      /* new codes go before this line only: replay files carry the numbers */
 };
 
@@ -72,6 +73,7 @@ static void vf_op_str(vf_op_t op, char* buf, size_t n) {
     case OP_FREE_SIZE:    snprintf(buf, n, "free_size(#%ld)", op.a); break;
     case OP_FREE_EVERY:   snprintf(buf, n, "free_every(%ld,%ld)", op.a, op.b); break;
     case OP_HFILL:        snprintf(buf, n, "heap_fill(h%ld,%ld)", op.a, op.b); break;
+    case OP_THREAD_ALIGNED: snprintf(buf, n, "thread_alloc_aligned(%ld,%ld)", op.a, op.b); break;
     case OP_AHEAP_NEW:    snprintf(buf, n, "heap_new_in_arena"); break;
     case OP_THREAD_ARENA: snprintf(buf, n, "thread_arena_alloc(%ld)", op.a); break;
     case OP_THREAD_MANY:  snprintf(buf, n, "thread_alloc(%ld x%ld)", op.a, op.b); break;
@@ -111,6 +113,7 @@ typedef struct profile_s {
   long hsizes[3];  int nh;
   long ticks[2];   int nt;
   long callocs[3][2]; int nc;
+  int  thread_aligned;                 /* a helper thread allocates two aligned blocks (asizes[0]) and terminates */
   int  arena;                          /* C15: managed-arena operations */
   int  faults;                         /* hardened builds: double free / overflow / forged link operations */
   int  fillcount, free_every;          /* blocks per fill (default 8); enable free_every(k,phase) ops */
@@ -143,6 +146,9 @@ static const profile_t profiles[] = {
   /* P5: aligned / interior pointers */
   { .name = "P5", .asizes = { { 48, 32 }, { 8 * KiB, 4096 }, { 100 * KiB, 64 * KiB }, { 1 * MiB, 64 * MiB } }, .na = 4, .msizes = { 48 }, .nm = 1,
     .realloc_al = 1, .rsizes = { 100, 9 * KiB }, .nr = 2, .free_variants = 1, .maxlive = 5, .free_window = 5 },
+  /* P5m: over-allocated aligned blocks (interior pointers) in pages that move inside their queue (start state S7) or change
+     owner (a helper thread allocates them and terminates) */
+  { .name = "P5m", .asizes = { { 8292, 4096 } }, .na = 1, .realloc_al = 1, .rsizes = { 9 * KiB }, .nr = 1, .free_variants = 1, .collect1 = 1, .thread_aligned = 1, .maxlive = 48, .free_window = 4 },
   /* P6w: heap walk incl. remote frees and abandoned pages, 64-blocks-per-word boundary */
   { .name = "P6w", .msizes = { 1024, 512 }, .nm = 2, .fills = { 1024 }, .nf = 1, .walk = 1, .remote_free = 1, .collect0 = 1, .maxlive = 80, .free_window = 4 },
   /* P6x: 64 blocks of 1 KiB fill exactly one bitmap word of the walk; 512 B blocks (127 per page) a full word plus a partial one */
@@ -166,6 +172,7 @@ static void* helper_thread(void* a) {
   if (t->kind == 0) { mi_free(t->p); }
   else if (t->kind == 1) { t->out[0] = mi_malloc(t->size); t->out[1] = mi_malloc(t->size); }
   else if (t->kind == 2) { mi_heap_t* h = mi_heap_new_in_arena(g_arena); t->out[0] = (h ? mi_heap_malloc(h, t->size) : NULL); t->out[1] = (h ? mi_heap_malloc(h, t->size) : NULL); t->p = h; }
+  else if (t->kind == 4) { size_t al = (size_t)(uintptr_t)t->p; t->out[0] = mi_malloc_aligned(t->size, al); t->out[1] = mi_malloc_aligned(t->size, al); }
   else { /* kind 3: many blocks from the default heap; first and last stay live */
     void* tmp[64]; int n = (int)(uintptr_t)t->p; if (n > 64) n = 64;
     for (int i = 0; i < n; i++) tmp[i] = mi_malloc(t->size);
@@ -627,6 +634,12 @@ static int vf_apply(vf_op_t op) {
       for (int h = 0; h < NHEAPS; h++) if (g_heaps[h] != NULL) if (check_walk_heap(h) != 0) return 1;
       return 0;
     }
+    case OP_THREAD_ALIGNED: {
+      targ_t t = { 4, (void*)(uintptr_t)op.b, (size_t)op.a, { 0, 0 } };
+      run_helper(&t);
+      for (int k = 0; k < 2; k++) if (vf_model_alloc(t.out[k], (size_t)op.a, (size_t)op.b, 0, -1, 0, "mi_malloc_aligned[thread]") < 0) return 1;
+      return 0;
+    }
     case OP_THREAD_ALLOC: {
       targ_t t = { 1, NULL, (size_t)op.a, { 0, 0 } };
       run_helper(&t);
@@ -690,6 +703,7 @@ static int vf_list_ops(vf_op_t* out, int max) {
     }
     for (int k = 0; k < ni; k++) { const vf_blk_t* b = &vf_live[idx[k]]; if (b->req < mi_page_usable_block_size(_mi_ptr_page(b->p))) PUSH(OP_OVER, idx[k], 0); }
   }
+  if (P->thread_aligned && can_alloc && vf_nlive + 2 <= P->maxlive) PUSH(OP_THREAD_ALIGNED, P->asizes[0][0], P->asizes[0][1]);
   if (P->collect0) PUSH(OP_COLLECT, 0, 0);
   if (P->collect1) PUSH(OP_COLLECT, 1, 0);
   for (int i = 0; i < P->nt; i++) PUSH(OP_TICK, P->ticks[i], 0);
@@ -760,6 +774,30 @@ static int build_start(const char* s) {
     mi_memid_t memid;
     void* blk = _mi_arena_alloc((size_t)62 * MI_ARENA_BLOCK_SIZE, false, false, aid, &memid);
     if (blk == NULL) { fprintf(stderr, "cannot pre-claim arena blocks\n"); return 2; }
+    return 0;
+  }
+  if (strcmp(s, "S7") == 0) {
+    /* two pages of the class of over-allocated aligned blocks: the older one (A) has been full, lost some blocks and sits at
+       the end of its queue; the newer one (B) is first, its free list is empty but it can still be extended. The next
+       allocation of this class makes A the candidate and moves it to the front of the queue. */
+    const long sz = 8292, al = 4096;
+    mi_page_t* A = NULL; mi_page_t* B = NULL; int firstA = vf_nlive, nA = 0;
+    for (int k = 0; k < 64 && B == NULL; k++) {
+      if (do_op(OP_ALIGNED, sz, al)) return 1;
+      mi_page_t* pg = _mi_ptr_page(vf_live[vf_nlive - 1].p);
+      if (A == NULL) A = pg;
+      if (pg == A) nA++; else B = pg;
+    }
+    if (B == NULL || nA < 4) { fprintf(stderr, "S7: unexpected page geometry\n"); return 2; }
+    /* release blocks of A that were returned as they are (not interior), so that interior-aligned blocks stay live in A */
+    /* (more than an eighth of the page must be free, else the page counts as 'mostly used' and is not preferred) */
+    int freed = 0, want = (int)A->reserved / 8 + 2;
+    for (int i = firstA + nA - 1; i >= firstA && freed < want; i--) {
+      mi_block_t* blk = _mi_page_ptr_unalign(A, vf_live[i].p);
+      if ((void*)blk == (void*)vf_live[i].p || freed + (i - firstA) < want) { if (do_op(OP_FREE, i, 0)) return 1; freed++; }
+    }
+    for (int k = 0; k < 64 && B->free != NULL; k++) if (do_op(OP_ALIGNED, sz, al)) return 1;
+    if (vf_verbose) fprintf(stderr, "S7: A=%p used=%d cap=%d res=%d has_aligned=%d in_full=%d | B=%p used=%d cap=%d res=%d free=%p | bs=%zu queue first=%p\n", (void*)A, A->used, A->capacity, A->reserved, (int)mi_page_has_aligned(A), (int)mi_page_is_in_full(A), (void*)B, B->used, B->capacity, B->reserved, (void*)B->free, mi_page_block_size(A), (void*)mi_heap_get_default()->pages[_mi_bin(mi_page_block_size(A))].first);
     return 0;
   }
   if (strcmp(s, "S6") == 0) {
